@@ -58,11 +58,15 @@ EXTENDS Integers, Sequences, FiniteSets, TLC, Json
 
 CONSTANTS Agent,   \* set of agent names
           Links,   \* potential links: set of two-element sets of agents
-          Scen,    \* scenarios: [name, up, links, dlinks, loc, ia, ra, wn, conn, disc, exp, forget, fifo]
+          Scen,    \* scenarios: [name, up, links, dlinks, loc, ia, ra, wn, conn, disc, exp, expat, forget, fifo, script]
                    \*   up     links connected initially     links / dlinks  links that may be connected / lost
                    \*   loc    agent -> exit route ids it originates
                    \*   ia, ra, wn  agent -> number of node-info announcements / route announcements / withdrawals
                    \*   conn, disc, exp, forget  budgets of the environment actions;  fifo  links deliver in order
+                   \*   expat  agents whose seen caches may lose entries
+                   \*   script when not <<>>: the environment actions ("ia" AnnounceInfo, "ra" Announce, "wd" Withdraw,
+                   \*          "conn", "disc", "exp", "forget") happen in this order (deliveries, replays and PeerGone
+                   \*          interleave freely) - keeps scenarios with many environment steps small
           Dev, Emit
 
 DevNames == {"DevInfoNoSeenMark", "DevInfoStoresOlder", "DevInfoForwardsToSeenBy", "DevInfoReplaySkipsOwn",
@@ -82,7 +86,6 @@ VARIABLES up, pendR, pendI, gone,    \* connected links; <<n,p>>: n still has to
           fwd,    \* ghost: <<c,n,q,o,seq>> n forwarded it to q in the current epoch
           sent,   \* ghost: <<c,o,seq>> -> frames sent by announcing and forwarding (replays not counted)
           hi,     \* ghost: agent -> origin -> newest info sequence stored since the entry was last forgotten
-          forgot, \* ghost: <<n,o>> n's entry for o was dropped by the TTL and not stored again since
           wseq,   \* ghost: origin -> sequence of its latest withdrawal (0 = none)
           rclean, \* ghost: origin announced its routes after the last topology change and has not withdrawn since
           viol,   \* ghost: flags
@@ -91,9 +94,9 @@ VARIABLES up, pendR, pendI, gone,    \* connected links; <<n,p>>: n still has to
 topoVars == <<up, pendR, pendI, gone>>
 routeVars == <<ctr, seen, tbl, wd>>
 infoVars == <<iseq, iseen, info>>
-vars == <<up, pendR, pendI, gone, ctr, seen, tbl, wd, iseq, iseen, info, net, cfg, proc, fwd, sent, hi, forgot, wseq,
+vars == <<up, pendR, pendI, gone, ctr, seen, tbl, wd, iseq, iseen, info, net, cfg, proc, fwd, sent, hi, wseq,
           rclean, viol, bud, last>>
-view == <<up, pendR, pendI, gone, ctr, seen, tbl, wd, iseq, iseen, info, net, cfg, proc, fwd, sent, hi, forgot, wseq,
+view == <<up, pendR, pendI, gone, ctr, seen, tbl, wd, iseq, iseen, info, net, cfg, proc, fwd, sent, hi, wseq,
           rclean, viol, bud>>
 
 (* ---- helpers ------------------------------------------------------------*)
@@ -131,7 +134,8 @@ Accept(c, e) == c.seq > e.seq \/ (c.seq = e.seq /\ c.m < e.m)
 WdSeq(n, o, r) == LET S == {x.seq : x \in {y \in wd[n] : y.o = o /\ y.r = r}} IN IF S = {} THEN 0 ELSE Max(S)
 
 ZeroBud == [ia |-> [a \in Agent |-> 0], ra |-> [a \in Agent |-> 0], wn |-> [a \in Agent |-> 0],
-            conn |-> 0, disc |-> 0, exp |-> 0, forget |-> 0]
+            conn |-> 0, disc |-> 0, exp |-> 0, forget |-> 0, step |-> 0]
+Scripted(kind) == cfg.script = <<>> \/ (bud.step < Len(cfg.script) /\ cfg.script[bud.step + 1] = kind)
 NoViol == [ipr |-> FALSE, ifw |-> FALSE, rpr |-> FALSE, rfw |-> FALSE, wnewer |-> FALSE]
 
 InitWith(sc) ==
@@ -143,7 +147,7 @@ InitWith(sc) ==
   /\ info = [a \in Agent |-> [o \in Agent |-> 0]]
   /\ net = [l \in DLinks |-> <<>>]
   /\ proc = {} /\ fwd = {} /\ sent = EmptyFn
-  /\ hi = [a \in Agent |-> [o \in Agent |-> 0]] /\ forgot = {}
+  /\ hi = [a \in Agent |-> [o \in Agent |-> 0]]
   /\ wseq = [a \in Agent |-> 0] /\ rclean = [a \in Agent |-> FALSE]
   /\ viol = NoViol /\ bud = ZeroBud
   /\ last = [act |-> "Init"]
@@ -153,7 +157,7 @@ Init == \E sc \in Scen : InitWith(sc)
 (* AnnounceLocalNodeInfo: next own sequence number, the own entry is stored *)
 (* (SetNodeInfo), one frame with seen-by <<o>> to every connected peer.     *)
 AnnounceInfo(o) ==
-  /\ bud.ia[o] < cfg.ia[o]
+  /\ bud.ia[o] < cfg.ia[o] /\ Scripted("ia")
   /\ LET s == iseq[o] + 1
          F == {Frame("info", o, q, o, s, <<>>, <<o>>, {}) : q \in Nbr(o)}
      IN /\ iseq' = [iseq EXCEPT ![o] = s]
@@ -161,9 +165,9 @@ AnnounceInfo(o) ==
         /\ hi' = [hi EXCEPT ![o][o] = s]
         /\ net' = PushTo(net, SetToSeq(F))
         /\ sent' = Bump(sent, <<"i", o, s>>, Cardinality(F))
-  /\ bud' = [bud EXCEPT !.ia[o] = @ + 1]
+  /\ bud' = [bud EXCEPT !.ia[o] = @ + 1, !.step = @ + 1]
   /\ last' = [act |-> "AnnounceInfo", n |-> o]
-  /\ UNCHANGED <<topoVars, routeVars, iseen, cfg, proc, fwd, forgot, wseq, rclean, viol>>
+  /\ UNCHANGED <<topoVars, routeVars, iseen, cfg, proc, fwd, wseq, rclean, viol>>
 
 (* HandleNodeInfoAdvertise.  Seen check and mark (one critical section);    *)
 (* a frame whose seen-by list contains the receiver is dropped after the    *)
@@ -178,7 +182,7 @@ DeliverInfo(l, i) ==
          key == <<m.o, m.seq>>
      IN IF key \in iseen[n]
         THEN /\ net' = Rest(l, i) /\ last' = Lbl(l, i, m, "seen")
-             /\ UNCHANGED <<infoVars, proc, fwd, sent, hi, forgot, viol>>
+             /\ UNCHANGED <<infoVars, proc, fwd, sent, hi, viol>>
         ELSE LET inSb == n \in SeqToSet(m.sb)
                  store == ~inSb /\ m.o # n /\ (m.seq > info[n][m.o] \/ "DevInfoStoresOlder" \in Dev)
                  sb2 == Append(m.sb, n)
@@ -190,7 +194,6 @@ DeliverInfo(l, i) ==
                 /\ iseq' = iseq
                 /\ info' = IF store THEN [info EXCEPT ![n][m.o] = m.seq] ELSE info
                 /\ hi' = IF store /\ m.seq > hi[n][m.o] THEN [hi EXCEPT ![n][m.o] = m.seq] ELSE hi
-                /\ forgot' = IF store THEN forgot \ {<<n, m.o>>} ELSE forgot
                 /\ net' = PushTo(Rest(l, i), SetToSeq(F))
                 /\ proc' = proc \cup {<<"i", n, m.o, m.seq>>}
                 /\ fwd' = fwd \cup fk
@@ -211,26 +214,25 @@ ReplayInfoOrd(n, p, fs) ==
   /\ net' = PushTo(net, fs)
   /\ pendI' = pendI \ {<<n, p>>}
   /\ last' = [act |-> "ReplayInfo", n |-> n, p |-> p]
-  /\ UNCHANGED <<up, pendR, gone, routeVars, infoVars, cfg, proc, fwd, sent, hi, forgot, wseq, rclean, viol, bud>>
+  /\ UNCHANGED <<up, pendR, gone, routeVars, infoVars, cfg, proc, fwd, sent, hi, wseq, rclean, viol, bud>>
 ReplayInfo(n, p) == \E fs \in Perms(ReplayInfoFrames(n, p)) : ReplayInfoOrd(n, p, fs)
 
 (* Flooder.cleanup dropping one entry of the node-info seen cache           *)
 ExpireISeen(n, k) ==
-  /\ k \in iseen[n] /\ bud.exp < cfg.exp
+  /\ k \in iseen[n] /\ bud.exp < cfg.exp /\ n \in cfg.expat /\ Scripted("exp")
   /\ iseen' = [iseen EXCEPT ![n] = @ \ {k}]
   /\ proc' = proc \ {<<"i", n, k[1], k[2]>>}
   /\ fwd' = {x \in fwd : ~(x[1] = "i" /\ x[2] = n /\ x[4] = k[1] /\ x[5] = k[2])}
-  /\ bud' = [bud EXCEPT !.exp = @ + 1]
+  /\ bud' = [bud EXCEPT !.exp = @ + 1, !.step = @ + 1]
   /\ last' = [act |-> "ExpireISeen", n |-> n, o |-> k[1], seq |-> k[2]]
-  /\ UNCHANGED <<topoVars, routeVars, iseq, info, net, cfg, sent, hi, forgot, wseq, rclean, viol>>
+  /\ UNCHANGED <<topoVars, routeVars, iseq, info, net, cfg, sent, hi, wseq, rclean, viol>>
 
 (* Manager.CleanupStaleNodeInfo dropping one entry (never the own one)      *)
 ForgetInfo(n, o) ==
-  /\ o # n /\ info[n][o] > 0 /\ bud.forget < cfg.forget
+  /\ o # n /\ info[n][o] > 0 /\ bud.forget < cfg.forget /\ Scripted("forget")
   /\ info' = [info EXCEPT ![n][o] = 0]
   /\ hi' = [hi EXCEPT ![n][o] = 0]
-  /\ forgot' = forgot \cup {<<n, o>>}
-  /\ bud' = [bud EXCEPT !.forget = @ + 1]
+  /\ bud' = [bud EXCEPT !.forget = @ + 1, !.step = @ + 1]
   /\ last' = [act |-> "ForgetInfo", n |-> n, o |-> o]
   /\ UNCHANGED <<topoVars, routeVars, iseq, iseen, net, cfg, proc, fwd, sent, wseq, rclean, viol>>
 
@@ -238,16 +240,16 @@ ForgetInfo(n, o) ==
 (* AnnounceLocalRoutes: all exit routes plus the presence route, metric 0,  *)
 (* path <<o>>, seen-by <<o>>, next sequence number, to every peer.          *)
 Announce(o) ==
-  /\ bud.ra[o] < cfg.ra[o]
+  /\ bud.ra[o] < cfg.ra[o] /\ Scripted("ra")
   /\ LET s == ctr[o] + 1
          F == {Frame("adv", o, q, o, s, <<o>>, <<o>>, {[r |-> x, m |-> 0] : x \in Locals(o) \cup {"p"}}) : q \in Nbr(o)}
      IN /\ ctr' = [ctr EXCEPT ![o] = s]
         /\ net' = PushTo(net, SetToSeq(F))
         /\ sent' = Bump(sent, <<"r", o, s>>, Cardinality(F))
   /\ rclean' = [rclean EXCEPT ![o] = TRUE]
-  /\ bud' = [bud EXCEPT !.ra[o] = @ + 1]
+  /\ bud' = [bud EXCEPT !.ra[o] = @ + 1, !.step = @ + 1]
   /\ last' = [act |-> "Announce", n |-> o]
-  /\ UNCHANGED <<topoVars, seen, tbl, wd, infoVars, cfg, proc, fwd, hi, forgot, wseq, viol>>
+  /\ UNCHANGED <<topoVars, seen, tbl, wd, infoVars, cfg, proc, fwd, hi, wseq, viol>>
 
 (* WithdrawLocalRoutes.  IDEAL: every exit route of the agent is withdrawn  *)
 (* ("floods withdrawal of all local routes").  The local routes stay        *)
@@ -256,8 +258,8 @@ Announce(o) ==
 (* at all happens when the agent has no CIDR route.                         *)
 WithdrawSet(o) == IF "DevWithdrawOnlyCidr" \in Dev THEN Cidr(Locals(o)) ELSE Locals(o)
 Withdraw(o) ==
-  /\ bud.wn[o] < cfg.wn[o]
-  /\ bud' = [bud EXCEPT !.wn[o] = @ + 1]
+  /\ bud.wn[o] < cfg.wn[o] /\ Scripted("wd")
+  /\ bud' = [bud EXCEPT !.wn[o] = @ + 1, !.step = @ + 1]
   /\ IF WithdrawSet(o) = {}
      THEN /\ last' = [act |-> "Withdraw", n |-> o, res |-> "none"]
           /\ UNCHANGED <<ctr, net, sent, wseq, rclean>>
@@ -269,7 +271,7 @@ Withdraw(o) ==
              /\ wseq' = [wseq EXCEPT ![o] = s]
              /\ rclean' = [rclean EXCEPT ![o] = FALSE]
              /\ last' = [act |-> "Withdraw", n |-> o, res |-> "sent"]
-  /\ UNCHANGED <<topoVars, seen, tbl, wd, infoVars, cfg, proc, fwd, hi, forgot, viol>>
+  /\ UNCHANGED <<topoVars, seen, tbl, wd, infoVars, cfg, proc, fwd, hi, viol>>
 
 Looped(m) == m.o = m.dst \/ m.dst \in SeqToSet(m.path)
 MarkR(m, dev) ==
@@ -314,7 +316,7 @@ DeliverAdv(l, i) ==
                         /\ sent' = Bump(sent, <<"r", m.o, m.seq>>, Cardinality(F))
                         /\ viol' = [viol EXCEPT !.rpr = @ \/ <<"r", n, m.o, m.seq>> \in proc, !.rfw = @ \/ fk \cap fwd # {}]
                         /\ last' = Lbl(l, i, m, "new")
-  /\ UNCHANGED <<topoVars, ctr, wd, infoVars, cfg, hi, forgot, wseq, rclean, bud>>
+  /\ UNCHANGED <<topoVars, ctr, wd, infoVars, cfg, hi, wseq, rclean, bud>>
 
 (* HandleRouteWithdraw.  Seen check and mark in the cache it shares with    *)
 (* ROUTE_ADVERTISE, seen-by check, removal, forward (seen-by extended).     *)
@@ -353,7 +355,7 @@ DeliverWithdraw(l, i) ==
                         /\ viol' = [viol EXCEPT !.rpr = @ \/ <<"r", n, m.o, m.seq>> \in proc, !.rfw = @ \/ fk \cap fwd # {},
                                                 !.wnewer = @ \/ \E e \in out : e.seq > m.seq]
                         /\ last' = Lbl(l, i, m, "new")
-  /\ UNCHANGED <<topoVars, ctr, infoVars, cfg, hi, forgot, wseq, rclean, bud>>
+  /\ UNCHANGED <<topoVars, ctr, infoVars, cfg, hi, wseq, rclean, bud>>
 
 (* SendFullTable(p) at n (see Flood.tla): the own exit routes as a genuine  *)
 (* announcement under a fresh own sequence number (never the own presence   *)
@@ -369,57 +371,67 @@ PathSrc(E) == LET i == CHOOSE i \in 1..4 : (\E e \in E : Kind(e.r) = KindPri[i])
                   B == IF KindPri[i] = "p" THEN {e \in S : \A d \in S : e.m <= d.m} ELSE S
               IN {e.path : e \in B}
 ReplayRs(E) == {[r |-> e.r, m |-> e.m] : e \in {x \in E : x.r # "p" \/ \A d \in E : d.r = "p" => x.m <= d.m}}
+ReplayEnts(n, p) == {e \in tbl[n] : e.nh # p}
+ReplayGroups(n, p) == {<<e.o, e.seq>> : e \in ReplayEnts(n, p)}
+GroupEnts(n, p, g) == {e \in ReplayEnts(n, p) : e.o = g[1] /\ e.seq = g[2]}
+ReplayOwn(n, p) == IF Locals(n) = {} THEN {}
+                   ELSE {Frame("adv", n, p, n, ctr[n] + 1, <<n>>, <<n>>, {[r |-> x, m |-> 0] : x \in Locals(n)})}
+GroupFrame(n, p, g, q) == Frame("adv", n, p, g[1], g[2], <<n>> \o q, <<n>>, ReplayRs(GroupEnts(n, p, g)))
+\* all frame sets SendFullTable(p) can produce at n (a choice of path where best presence entries tie)
 ReplayRouteSets(n, p) ==
-  LET E == {e \in tbl[n] : e.nh # p}
-      G == {<<e.o, e.seq>> : e \in E}
-      Ents(g) == {e \in E : e.o = g[1] /\ e.seq = g[2]}
-      own == IF Locals(n) = {} THEN {}
-             ELSE {Frame("adv", n, p, n, ctr[n] + 1, <<n>>, <<n>>, {[r |-> x, m |-> 0] : x \in Locals(n)})}
-      Ch == {c \in [G -> UNION {PathSrc(Ents(g)) : g \in G}] : \A g \in G : c[g] \in PathSrc(Ents(g))}
-  IN {own \cup {Frame("adv", n, p, g[1], g[2], <<n>> \o c[g], <<n>>, ReplayRs(Ents(g))) : g \in G} : c \in Ch}
+  LET G == ReplayGroups(n, p)
+      Ch == {c \in [G -> UNION {PathSrc(GroupEnts(n, p, g)) : g \in G}] : \A g \in G : c[g] \in PathSrc(GroupEnts(n, p, g))}
+  IN {ReplayOwn(n, p) \cup {GroupFrame(n, p, g, c[g]) : g \in G} : c \in Ch}
+\* the same as a test (no enumeration: used for recorded executions with many groups)
+IsReplayRouteSet(n, p, S) ==
+  LET G == ReplayGroups(n, p)
+  IN /\ ReplayOwn(n, p) \subseteq S
+     /\ \A g \in G : \E q \in PathSrc(GroupEnts(n, p, g)) : GroupFrame(n, p, g, q) \in S
+     /\ \A f \in S : f \in ReplayOwn(n, p) \/ \E g \in G : \E q \in PathSrc(GroupEnts(n, p, g)) : f = GroupFrame(n, p, g, q)
+     /\ Cardinality(S) = Cardinality(ReplayOwn(n, p)) + Cardinality(G)
 ReplayRoutesOrd(n, p, fs) ==
   /\ <<n, p>> \in pendR
-  /\ SeqToSet(fs) \in ReplayRouteSets(n, p) /\ NoDup(fs)
+  /\ IsReplayRouteSet(n, p, SeqToSet(fs)) /\ NoDup(fs)
   /\ net' = PushTo(net, fs)
   /\ ctr' = [ctr EXCEPT ![n] = @ + (IF Locals(n) = {} THEN 0 ELSE 1)]
   /\ pendR' = pendR \ {<<n, p>>}
   /\ last' = [act |-> "ReplayRoutes", n |-> n, p |-> p]
-  /\ UNCHANGED <<up, pendI, gone, seen, tbl, wd, infoVars, cfg, proc, fwd, sent, hi, forgot, wseq, rclean, viol, bud>>
+  /\ UNCHANGED <<up, pendI, gone, seen, tbl, wd, infoVars, cfg, proc, fwd, sent, hi, wseq, rclean, viol, bud>>
 ReplayRoutes(n, p) == \E F \in ReplayRouteSets(n, p) : \E fs \in Perms(F) : ReplayRoutesOrd(n, p, fs)
 
 (* Flooder.cleanup dropping one entry of the route seen cache               *)
 ExpireSeen(n, k) ==
-  /\ k \in seen[n] /\ bud.exp < cfg.exp
+  /\ k \in seen[n] /\ bud.exp < cfg.exp /\ n \in cfg.expat /\ Scripted("exp")
   /\ seen' = [seen EXCEPT ![n] = @ \ {k}]
   /\ proc' = proc \ {<<"r", n, k[1], k[2]>>}
   /\ fwd' = {x \in fwd : ~(x[1] = "r" /\ x[2] = n /\ x[4] = k[1] /\ x[5] = k[2])}
-  /\ bud' = [bud EXCEPT !.exp = @ + 1]
+  /\ bud' = [bud EXCEPT !.exp = @ + 1, !.step = @ + 1]
   /\ last' = [act |-> "ExpireSeen", n |-> n, o |-> k[1], seq |-> k[2]]
-  /\ UNCHANGED <<topoVars, ctr, tbl, wd, infoVars, net, cfg, sent, hi, forgot, wseq, rclean, viol>>
+  /\ UNCHANGED <<topoVars, ctr, tbl, wd, infoVars, net, cfg, sent, hi, wseq, rclean, viol>>
 
 (* ======================= TOPOLOGY =========================================*)
 Connect(l) ==
-  /\ l \in cfg.links \ up /\ bud.conn < cfg.conn
+  /\ l \in cfg.links \ up /\ bud.conn < cfg.conn /\ Scripted("conn")
   /\ \A x \in gone : {x[1], x[2]} # l
   /\ up' = up \cup {l}
   /\ LET P == {<<a, b>> : a \in l, b \in l} \ {<<a, a>> : a \in l}
      IN pendR' = pendR \cup P /\ pendI' = pendI \cup P
   /\ rclean' = [a \in Agent |-> FALSE]
-  /\ bud' = [bud EXCEPT !.conn = @ + 1]
+  /\ bud' = [bud EXCEPT !.conn = @ + 1, !.step = @ + 1]
   /\ last' = [act |-> "Connect", l |-> l]
-  /\ UNCHANGED <<gone, routeVars, infoVars, net, cfg, proc, fwd, sent, hi, forgot, wseq, viol>>
+  /\ UNCHANGED <<gone, routeVars, infoVars, net, cfg, proc, fwd, sent, hi, wseq, viol>>
 
 \* the connection is lost: frames in flight on it are lost, both ends still hold the routes
 Disconnect(l) ==
-  /\ l \in up \cap cfg.dlinks /\ bud.disc < cfg.disc
+  /\ l \in up \cap cfg.dlinks /\ bud.disc < cfg.disc /\ Scripted("disc")
   /\ up' = up \ {l}
   /\ net' = [x \in DLinks |-> IF {x[1], x[2]} = l THEN <<>> ELSE net[x]]
   /\ pendR' = {x \in pendR : {x[1], x[2]} # l} /\ pendI' = {x \in pendI : {x[1], x[2]} # l}
   /\ gone' = gone \cup ({<<a, b>> : a \in l, b \in l} \ {<<a, a>> : a \in l})
   /\ rclean' = [a \in Agent |-> FALSE]
-  /\ bud' = [bud EXCEPT !.disc = @ + 1]
+  /\ bud' = [bud EXCEPT !.disc = @ + 1, !.step = @ + 1]
   /\ last' = [act |-> "Disconnect", l |-> l]
-  /\ UNCHANGED <<routeVars, infoVars, cfg, proc, fwd, sent, hi, forgot, wseq, viol>>
+  /\ UNCHANGED <<routeVars, infoVars, cfg, proc, fwd, sent, hi, wseq, viol>>
 
 \* handlePeerDisconnect at n: the routes whose next hop was p are removed (node info is kept)
 PeerGone(n, p) ==
@@ -427,7 +439,7 @@ PeerGone(n, p) ==
   /\ gone' = gone \ {<<n, p>>}
   /\ tbl' = [tbl EXCEPT ![n] = {e \in @ : e.nh # p}]
   /\ last' = [act |-> "PeerGone", n |-> n, p |-> p]
-  /\ UNCHANGED <<up, pendR, pendI, ctr, seen, wd, infoVars, net, cfg, proc, fwd, sent, hi, forgot, wseq, rclean, viol, bud>>
+  /\ UNCHANGED <<up, pendR, pendI, ctr, seen, wd, infoVars, net, cfg, proc, fwd, sent, hi, wseq, rclean, viol, bud>>
 
 Next ==
   \/ \E o \in Agent : AnnounceInfo(o) \/ Announce(o) \/ Withdraw(o)
@@ -470,9 +482,11 @@ MsgBound == bud.exp = 0 /\ bud.conn = 0 /\ bud.disc = 0 => \A k \in DOMAIN sent 
 \* the origin has not issued, and every agent holds its own current info
 InfoMonotone == \A n \in Agent, o \in Agent : info[n][o] = hi[n][o]
 InfoSane == \A n \in Agent, o \in Agent : info[n][o] <= iseq[o] /\ info[n][n] = iseq[n]
-\* at quiescence every agent holds the NEWEST node info of every agent it is connected to (directly or not)
-InfoConverged == Quiescent => \A o \in Agent : iseq[o] > 0 =>
-                    \A a \in ReachFrom({o}) : <<a, o>> \in forgot \/ info[a][o] = iseq[o]
+\* at quiescence every agent holds the NEWEST node info of every agent it is connected to (directly or not) - as
+\* long as no entry was dropped by the TTL (an agent that forgot an entry cannot replay it to a new peer, and a
+\* late copy of an older info may then be stored again: the next periodic announcement repairs both)
+InfoConverged == Quiescent /\ bud.forget = 0 => \A o \in Agent : iseq[o] > 0 =>
+                    \A a \in ReachFrom({o}) : info[a][o] = iseq[o]
 
 \* an agent that has processed a withdrawal never (again) holds an older copy of the withdrawn route:
 \* no resurrection by late or replayed announcements
